@@ -56,6 +56,9 @@ Spec == Init /\ [][Next]_vars
 (* long climbs: after the configuration every offer is one above the largest timestamp seen, or two below it (late or not) *)
 NextClimb == \/ \E d \in Delays, s \in Strategies, l \in Lates : (s # "allowed" => l = 0) /\ Config(d, s, l)
              \/ \E ts \in {mx + 1, Monus(mx, 2)} : ts \in TS /\ Offer(ts)
+(* the same with a third choice: the largest timestamp again *)
+NextClimb3 == \/ \E d \in Delays, s \in Strategies, l \in Lates : (s # "allowed" => l = 0) /\ Config(d, s, l)
+              \/ \E ts \in {mx + 1, mx, Monus(mx, 2)} : ts \in TS /\ Offer(ts)
 
 -------------------------------------------------------------------------------------
 (* C13 *)
